@@ -24,4 +24,5 @@ def run(rep, ctx):
     run_relocate_reader(rep, g)
     run_reader_premise(rep, g)
     run_F_lookup(rep, g)
-    run_witnesses(rep, ['RcReaderIsNotSend', 'SubReaderCannotOutliveBuffer', 'RangeFieldIsPrivate', 'ReaderHasNoConstructor'])
+    if not getattr(ctx, 'variant', None):
+        run_witnesses(rep, ['RcReaderIsNotSend', 'SubReaderCannotOutliveBuffer', 'RangeFieldIsPrivate', 'ReaderHasNoConstructor'])
